@@ -262,6 +262,10 @@ func OnTombstone(it Item, fn withTombstoneFn) error {
 	}
 	if IsItemCollection(it) {
 		return OnItemCollection(it, func(col *ItemCollection) error {
+			if col == nil {
+				// a nil list is handed to the callback as a nil pointer: nothing to visit
+				return nil
+			}
 			for _, it := range *col {
 				if err := OnTombstone(it, fn); err != nil {
 					return err
